@@ -161,7 +161,8 @@ def _case(i):
         # the until-end-of-input program; one configuration per case so that the six runs proceed in parallel
         kind = 'mega_line'
         only_cfg = ('i0', 'i1', 'i2', 'c0', 'c1', 'c2')[i - 8]
-        text = 'ab'[:rng.randint(0, 2)] + rng.choice(['한', '€']) * 352000 + rng.choice(['\n', '\n끝', ''])
+        # (shift 0 or 2: the character starting at byte 2^20 - 1 resp. 2^20 - 2 of the line covers byte 2^20)
+        text = 'ab'[:(0, 2)[i % 2]] + rng.choice(['한', '€']) * 352000 + rng.choice(['\n', '\n끝', ''])
     sb = text.encode('utf-8')
     res['hist']['text:' + kind] = 1
     res['hist']['stdin_bytes'] = len(sb)
